@@ -59,7 +59,7 @@ def install(engine, payload=None):
         for n in set(info['notes']):
           STATE['notes'][n] = STATE['notes'].get(n, 0) + 1
         if bad and len(STATE['violations']) < 20:
-          STATE['violations'].append({'mech': bad[0], 'msg': bad[1], 'type': tname})
+          STATE['violations'].append({'mech': bad[0], 'msg': bad[1], 'type': tname, 'value_is_str': isinstance(value_to_convert, str)})
         if info['kind'] is not None and (info['changed'] or info['kind'] == 'alt_text') and len(STATE['shapes']) < 400:
           STATE['shapes'].add('%s|%s|%s' % (tname, value_class(value_to_convert), info['kind']))
       except Exception as e:      # pylint: disable=broad-except
